@@ -76,11 +76,108 @@ func PipelineAsSteps(stmts []*gripql.GraphStatement) map[string]string {
 	return out
 }
 
+// pipelineMarkSteps lists, for each mark name, every step in which an as_ statement sets it
+// (a name may be set more than once; which one a later statement sees depends on its position)
+func pipelineMarkSteps(stmts []*gripql.GraphStatement, steps []string) map[string][]string {
+	out := map[string][]string{}
+	for i, gs := range stmts {
+		switch stmt := gs.GetStatement().(type) {
+		case *gripql.GraphStatement_As:
+			if !contains(out[stmt.As], steps[i]) {
+				out[stmt.As] = append(out[stmt.As], steps[i])
+			}
+		}
+	}
+	return out
+}
+
+// hasExpressionFields lists the field references evaluated by a has expression
+func hasExpressionFields(expr *gripql.HasExpression) []string {
+	out := []string{}
+	if expr == nil {
+		return out
+	}
+	if c := expr.GetCondition(); c != nil {
+		out = append(out, c.Key)
+	}
+	if a := expr.GetAnd(); a != nil {
+		for _, e := range a.GetExpressions() {
+			out = append(out, hasExpressionFields(e)...)
+		}
+	}
+	if o := expr.GetOr(); o != nil {
+		for _, e := range o.GetExpressions() {
+			out = append(out, hasExpressionFields(e)...)
+		}
+	}
+	if n := expr.GetNot(); n != nil {
+		out = append(out, hasExpressionFields(n)...)
+	}
+	return out
+}
+
+// templateFields lists the field references of a render template (its string leaves)
+func templateFields(template interface{}) []string {
+	out := []string{}
+	switch t := template.(type) {
+	case string:
+		out = append(out, t)
+	case []interface{}:
+		for _, v := range t {
+			out = append(out, templateFields(v)...)
+		}
+	case map[string]interface{}:
+		for _, v := range t {
+			out = append(out, templateFields(v)...)
+		}
+	}
+	return out
+}
+
+// statementFields lists the field references a statement evaluates against the traveler
+func statementFields(gs *gripql.GraphStatement) []string {
+	switch stmt := gs.GetStatement().(type) {
+	case *gripql.GraphStatement_Has:
+		return hasExpressionFields(stmt.Has)
+	case *gripql.GraphStatement_HasKey:
+		return protoutil.AsStringList(stmt.HasKey)
+	case *gripql.GraphStatement_Distinct:
+		return protoutil.AsStringList(stmt.Distinct)
+	case *gripql.GraphStatement_Render:
+		return templateFields(stmt.Render.AsInterface())
+	case *gripql.GraphStatement_Unwind:
+		return []string{stmt.Unwind}
+	case *gripql.GraphStatement_Aggregate:
+		out := []string{}
+		for _, a := range stmt.Aggregate.GetAggregations() {
+			if x := a.GetTerm(); x != nil {
+				out = append(out, x.Field)
+			}
+			if x := a.GetHistogram(); x != nil {
+				out = append(out, x.Field)
+			}
+			if x := a.GetPercentile(); x != nil {
+				out = append(out, x.Field)
+			}
+			if x := a.GetField(); x != nil {
+				out = append(out, x.Field)
+			}
+			if x := a.GetType(); x != nil {
+				out = append(out, x.Field)
+			}
+		}
+		return out
+	case *gripql.GraphStatement_Jump:
+		return hasExpressionFields(stmt.Jump.GetExpression())
+	}
+	return []string{}
+}
+
 // PipelineStepOutputs identify the required outputs for each step in the traversal
 func PipelineStepOutputs(stmts []*gripql.GraphStatement) map[string][]string {
 
 	steps := PipelineSteps(stmts)
-	asMap := PipelineAsSteps(stmts)
+	markSteps := pipelineMarkSteps(stmts, steps)
 	onLast := true
 	out := map[string][]string{}
 	for i := len(stmts) - 1; i >= 0; i-- {
@@ -89,27 +186,14 @@ func PipelineStepOutputs(stmts []*gripql.GraphStatement) map[string][]string {
 		case *gripql.GraphStatement_Count:
 			onLast = false
 		case *gripql.GraphStatement_Select:
-			if onLast {
-				sel := gs.GetSelect().Marks
-				for _, s := range sel {
-					if a, ok := asMap[s]; ok {
-						out[a] = []string{"*"}
-					}
-				}
-				onLast = false
-			}
-		case *gripql.GraphStatement_Distinct:
-			//if there is a distinct step, we need to load data, but only for requested fields
-			fields := protoutil.AsStringList(gs.GetDistinct())
-			for _, f := range fields {
-				n := jsonpath.GetNamespace(f)
-				if n == "__current__" {
-					out[steps[i]] = []string{"*"}
-				}
-				if a, ok := asMap[n]; ok {
+			//a selected mark becomes the current element (or part of the result row): whatever
+			//follows may read it, so every step that sets the mark has to load
+			for _, s := range gs.GetSelect().Marks {
+				for _, a := range markSteps[s] {
 					out[a] = []string{"*"}
 				}
 			}
+			onLast = false
 		case *gripql.GraphStatement_V, *gripql.GraphStatement_E,
 			*gripql.GraphStatement_Out, *gripql.GraphStatement_In,
 			*gripql.GraphStatement_OutE, *gripql.GraphStatement_InE,
@@ -130,8 +214,20 @@ func PipelineStepOutputs(stmts []*gripql.GraphStatement) map[string][]string {
 			} else {
 				out[steps[i]] = []string{"_label"}
 			}
-		case *gripql.GraphStatement_Has:
+		case *gripql.GraphStatement_Has, *gripql.GraphStatement_Fields, *gripql.GraphStatement_Unwind:
+			//these read (or copy) the data of the current element whatever their arguments are
 			out[steps[i]] = []string{"*"}
+		}
+		//statements that evaluate field references need the data of the elements those
+		//references address: the current element, or a mark set in an earlier step
+		for _, f := range statementFields(gs) {
+			n := jsonpath.GetNamespace(f)
+			if n == jsonpath.Current {
+				out[steps[i]] = []string{"*"}
+			}
+			for _, a := range markSteps[n] {
+				out[a] = []string{"*"}
+			}
 		}
 	}
 	return out
